@@ -56,14 +56,20 @@ fn mark_tail_calls(
     let span = tail.span();
     let ctxobj = tail.ctxobj();
     let tail_ident = tail.car()?;
-    let tail_name_str = tail_ident.as_symbol()?;
+    // A tail form whose head is not a symbol, e.g. ((lambda (x) x) 1), is an
+    // ordinary call and stays as it is.
+    let tail_name_str = tail_ident.as_symbol().unwrap_or_default();
     let new_tail = if tail_ident.eq(&name) {
         let ret_tail = TulispObject::nil().append(tail.cdr()?)?.to_owned();
         list!(,ctx.intern("list")
               ,TulispValue::Bounce.into_ref(None)
               ,@ret_tail)?
-    } else if tail_name_str == "progn" || tail_name_str == "let" || tail_name_str == "let*" {
+    } else if tail_name_str == "progn" {
         list!(,tail_ident ,@mark_tail_calls(ctx, name, tail.cdr()?)?)?
+    } else if tail_name_str == "let" || tail_name_str == "let*" {
+        // The variable list is not a body form: only the forms after it are.
+        destruct_bind!((_let varlist &rest let_body) = tail);
+        list!(,tail_ident ,varlist ,@mark_tail_calls(ctx, name, let_body)?)?
     } else if tail_name_str == "if" {
         destruct_bind!((_if condition then_body &rest else_body) = tail);
         list!(,tail_ident
